@@ -33,6 +33,21 @@ def gen_cases(rng, tier):
             yield {'op': 'getitem', 'bits': bits, 'i': i, 'cls': rng.choice(CLASSES)}
             yield {'op': 'setbit', 'bits': bits, 'i': i, 'v': rng.choice([0, 1])}
             yield {'op': 'delbit', 'bits': bits, 'i': i}
+    # set / invert over every boundary range(start, stop, step) of one short content, and byteswap of every byte group layout on lengths that are and are
+    # not whole bytes: the branches of the position arithmetic under lsb0
+    for n in ([7] if tier == 'quick' else [1, 6, 7, 10]):
+        bv = sorted({-n - 1, -n, -1, 0, 1, 2, n - 2, n - 1, n, n + 1})
+        bits = rand_bits(rng, n, 'rand')
+        for a in bv:
+            for b in bv:
+                for st in (1, 2, 3, -1, -2):
+                    yield {'op': 'set' if (a + b + st) % 2 else 'invert', 'bits': bits, 'cls': 'BitArray', 'pos': {'range': [a, b, st]}, 'v': (a + b) % 2}
+    for n in ([8, 12, 17, 24, 27] if tier == 'quick' else list(range(8, 41))):
+        bits = rand_bits(rng, n, 'rand')
+        for fmt in (0, 1, 2, [1, 2], [2, 1]):
+            for (a, b) in [(None, None), (0, None), (None, n), (0, 8 * (n // 8)), (n % 8, None), (1, None), (None, n - 1), (0, 16), (4, 20)]:
+                if tier == 'quick' and rng.random() < 0.4: continue
+                yield {'op': 'byteswap', 'bits': bits, 'cls': rng.choice(MUTABLE), 'start': a, 'end': b, 'fmt': fmt, 'repeat': rng.random() < 0.5, 'n': 0}
     N = 500 if tier == 'quick' else 8000
     from props.c07 import plant, rand_window
     from props.c03 import ropt_range, rpos
@@ -301,3 +316,20 @@ def search(seeds, rng):
         msg = oracle(c, obs)
         if msg and classify(c, obs) is None: return c, obs, msg
     return None
+
+
+# arguments on which the translated source of a kernel and the hand model differ under lsb0 -> ordinary cases of this module
+def kernel_cases(name, a):
+    if not a['lsb0']: return []
+    x = a['args']; out = []
+    mk = lambda op, **kw: dict({'op': op, 'bits': a['self'], 'cls': 'BitArray'}, **kw)
+    if name in ('k_ba_insert', 'k_insert_') and not x['bs'][1]: out.append(mk('insert', bs=x['bs'][0], pos=x['pos']))
+    if name in ('k_ba_overwrite', 'k_overwrite_') and not x['bs'][1]: out.append(mk('overwrite', bs=x['bs'][0], pos=x['pos']))
+    if name in ('k_ba_ror', 'k_ror_msb0', 'k_ba_rol', 'k_rol_msb0'):
+        for op in ('ror', 'rol'): out.append(mk(op, n=x['bits'], start=x.get('start'), end=x.get('end'), fmt=0, repeat=True))
+    if name in ('k_ba_reverse', 'k_validate_slice'): out.append(mk('reverse', start=x.get('start'), end=x.get('end'), n=0, fmt=0, repeat=True))
+    if name == 'k_reversebytes':
+        out.append(mk('byteswap', start=x['start'], end=x['end'], fmt=0, repeat=False, n=0))
+        out.append(mk('byteswap', start=x['start'], end=None, fmt=max(1, (x['end'] - x['start']) // 8), repeat=False, n=0))
+    if name == 'k_delete_': out.append({'op': 'delslice', 'bits': a['self'], 'k': [x['pos'], x['pos'] + x['bits'], None]})
+    return out
